@@ -2,6 +2,7 @@ import EG.Step
 import EG.Build
 import EG.Render
 import EG.Trav
+import EG.TravOps
 import EG.Single
 import EG.Pickle
 /-
@@ -178,46 +179,6 @@ def parseOp (toks : List String) : Option Op :=
     pure (.findLinks (← parseId 'V' a) (← parseId 'V' b) (ds == "1") (← unk.toNat?) (← parseOptNat filt) fault)
   | _ => none
 
-/-! ### graph resolution for traversals: pseudo-vertices for `None` and for raising `neighbors` -/
-
-/-- resolved view of the world for one traversal call.  Ids: `0 … nV-1` real vertices,
-    `nV` = Python `None`, `nV+1+x` = "`neighbors(x)` raised" (x ≤ nV). -/
-structure Resolved where
-  n : Nat                    -- nV
-  nbs : Array (List Nat)     -- indexed by id < 2n+2
-  errs : Array (Option Err)  -- error raised by neighbors(x), x ≤ n
-  w : World                  -- world after the neighbor calls (cache updates)
-
-def resolve (w : World) (dir unk : Nat) (filt : Option Nat) : Resolved := Id.run do
-  let n := w.nV
-  let mut w := w
-  let mut nbs : Array (List Nat) := Array.replicate (2 * n + 2) []
-  let mut errs : Array (Option Err) := Array.replicate (n + 1) none
-  for v in [0:n] do
-    let (w', r) := M.neighbors w filterTable v dir unk filt
-    w := w'
-    match r with
-    | .ok l => nbs := nbs.set! v (l.map fun o => match o with | none => n | some x => x)
-    | .error e =>
-      nbs := nbs.set! v [n + 1 + v]
-      errs := errs.set! v (some e)
-  -- `neighbors(None)` : AttributeError
-  nbs := nbs.set! n [n + 1 + n]
-  errs := errs.set! n (some .attribute)
-  return { n := n, nbs := nbs, errs := errs, w := w }
-
-def Resolved.nb (r : Resolved) (x : Nat) : List Nat := r.nbs.getD x []
-
-def Resolved.fuel (r : Resolved) : Nat :=
-  r.nbs.foldl (fun a l => a + l.length + 1) 2
-
-/-- cut a pure traversal output at the first pseudo-error vertex -/
-def cutOutput (r : Resolved) : List Nat → List Nat × Option Err
-  | [] => ([], none)
-  | x :: xs =>
-    if x > r.n then ([], (r.errs.getD (x - r.n - 1) none).orElse fun _ => some .other)
-    else let (p, e) := cutOutput r xs; (x :: p, e)
-
 def showTravId (n : Nat) (x : Nat) : String := if x == n then "-" else s!"V{x}"
 
 /-! ### the operations -/
@@ -228,58 +189,6 @@ def vfilter (n : Nat) (k : Option Nat) (x : Nat) : Bool :=
   match k with
   | none => true
   | some k => if x > n then true else k.testBit ((if x == n then 0 else x + 1) % 64)
-
-inductive TravKind | bft | dftr | dfti
-  deriving DecidableEq
-
-/-- one traversal call: pre-flight checks, resolution, pure loop, cut at the first error.
-    Returns (listed prefix, error raised after it if any). -/
-def traverse (w : World) (kind : TravKind) (uni : Option VId) (start : VId) (dir unk : Nat)
-    (via res : Option Nat) : List Nat × Option Err :=
-  let emptyUni := match uni with | some u => (w.members u).isEmpty | none => false
-  let startOut := match uni with | some u => !((w.members u).contains start) | none => false
-  if emptyUni then (if kind == .bft then ([], none) else ([], some .value))
-  else if startOut then ([], some .value)
-  else
-    let r := resolve w dir unk via
-    let inU : Nat → Bool := fun x =>
-      if x > r.n then true
-      else match uni with
-        | none => true
-        | some u => x < r.n && (w.members u).contains x
-    let ffr := vfilter r.n res
-    let out := match kind with
-      | .bft => T.bft r.nb inU ffr r.fuel start
-      | .dftr => T.dftRecursive r.nb inU ffr r.fuel start
-      | .dfti => T.dftIterative r.nb inU ffr r.fuel start
-    cutOutput r out
-
-inductive SearchKind | bfs | dfsr | dfsi
-  deriving DecidableEq
-
-/-- one search call (always default settings); `.inl e` = raised, `.inr x?` = returned -/
-def search (w : World) (kind : SearchKind) (uni : Option VId) (start : VId) (attr val : Nat) :
-    Err ⊕ Option Nat :=
-  let emptyUni := match uni with | some u => (w.members u).isEmpty | none => false
-  let startOut := match uni with | some u => !((w.members u).contains start) | none => false
-  if emptyUni then (if kind == .bfs then .inr none else .inl .value)
-  else if startOut then .inl .value
-  else
-    let r := resolve w 0 2 none
-    let inU : Nat → Bool := fun x =>
-      if x > r.n then true
-      else match uni with
-        | none => true
-        | some u => x < r.n && (w.members u).contains x
-    let p : Nat → Bool := fun x =>
-      if x > r.n then true else if x == r.n then false else (w.attrs x).contains (attr, val)
-    let res := match kind with
-      | .bfs => T.bfs r.nb inU p r.fuel start
-      | .dfsr => T.dfsRecursive r.nb inU p r.fuel start
-      | .dfsi => T.dfsIterative r.nb inU p r.fuel start
-    match res with
-    | none => .inr none
-    | some x => if x > r.n then .inl ((r.errs.getD (x - r.n - 1) none).getD .other) else .inr (some x)
 
 def step (st : DState) (line : String) : DState × String :=
   let w := st.w
@@ -470,8 +379,8 @@ def step (st : DState) (line : String) : DState × String :=
       match parseOptV uni, parseId 'V' start, dir.toNat?, unk.toNat?, parseOptNat via, parseOptNat res with
       | some uni, some start, some dir, some unk, some via, some res =>
         if !(w.vOK start) || !(uni.all w.isUni) then bad else
-        let k : TravKind := if kind == "bft" then .bft else if kind == "dftr" then .dftr else .dfti
-        let (out, e) := traverse w k uni start dir unk via res
+        let k : TO.TravKind := if kind == "bft" then .bft else if kind == "dftr" then .dftr else .dfti
+        let (out, e) := TO.traverse w filterTable (vfilter w.nV res) k uni start dir unk via
         let lst := showList (showTravId w.nV) out
         if mode == "gen" then
           (st, "gen " ++ lst ++ (match e with | none => " end" | some e => " " ++ errLine e))
@@ -484,8 +393,8 @@ def step (st : DState) (line : String) : DState × String :=
       match parseOptV uni, parseId 'V' start, attr.toNat?, val.toNat? with
       | some uni, some start, some attr, some val =>
         if !(w.vOK start) || !(uni.all w.isUni) then bad else
-        let k : SearchKind := if kind == "bfs" then .bfs else if kind == "dfsr" then .dfsr else .dfsi
-        match search w k uni start attr val with
+        let k : TO.SearchKind := if kind == "bfs" then .bfs else if kind == "dfsr" then .dfsr else .dfsi
+        match TO.search w filterTable k uni start attr val with
         | .inl e => (st, errLine e)
         | .inr none => (st, "ok -")
         | .inr (some x) => (st, s!"ok V{x}")
